@@ -80,6 +80,9 @@ REQUIRED_ANCHORS = ['node_iter.IterNodeDelegate._apply_iter_items_parallel', 'no
 _PERMS = {n: list(itertools.permutations(range(n))) for n in (2, 3, 4)}
 
 
+TECHNIQUE = 'runtime monitoring: differential oracle (apply_pool / parallel store reads vs the sequential result) under threads and processes, chunk sizes, failing tasks and worker counts'
+
+
 def _perm_key(n, order):
     return f'n{n}:' + ','.join(str(i) for i in order)
 
